@@ -245,6 +245,10 @@ def _trees(store, outside_abs):
         "x_link_sibling_file": [(b"x", L, b"../wt-backup/target"), (b"README", F, b"hello\n")],
         "d_dir": [(b"d/f", F, MARK), (b"d/g/h", F, MARK)],
         "x_link_dotgit_file": [(b"x", L, b".git/config")],
+        # a submodule (gitlink) where an earlier tree had a symlink to an existing directory: its placeholder must not be
+        # created through the link
+        "d_gitlink": [(b"d", 0o160000, b"")],
+        "d_link_refs": [(b"d", L, b".git/refs/heads")],
         # a regular file exactly as long as the link targets above it may replace ("../wt-backup/target" = 19 bytes,
         # ".git/config" = 11 bytes): size-based shortcuts must not keep the symlink and write through it
         "x_file_19_bytes": [(b"x", F, MARK[:18] + b"\n")],
@@ -262,13 +266,17 @@ def _raw_tree(store, entries):
     from dulwich.objects import Blob, Tree
     root = {}
     for path, mode, payload in entries:
-        b = Blob.from_string(payload)
-        store.add_object(b)
+        if mode == 0o160000:
+            sha = b"7" * 40                     # a commit of the submodule; not present in this repository
+        else:
+            b = Blob.from_string(payload)
+            store.add_object(b)
+            sha = b.id
         parts = path.split(b"/")
         cur = root
         for p in parts[:-1]:
             cur = cur.setdefault(p, {})
-        cur[parts[-1]] = (mode, b.id)
+        cur[parts[-1]] = (mode, sha)
 
     def build(dct):
         t = Tree()
@@ -282,7 +290,7 @@ def _raw_tree(store, entries):
     return build(root)
 
 
-def h_compose(eng, first="plain", steps=3):
+def h_compose(eng, first="plain", steps=3, reduced=False):
     from dulwich import porcelain
     from dulwich.repo import Repo
     from dulwich.objects import Commit
@@ -312,7 +320,14 @@ def h_compose(eng, first="plain", steps=3):
         seq = []
         for s in range(steps):
             nm = first if s == 0 else names[eng.choice(f"tree{s}", len(names))]
-            mode = "hard" if s == 0 else ["hard", "mixed", "patch", "reset_index"][eng.choice(f"mode{s}", 4)]
+            if s == 0:
+                mode = "hard"
+            elif reduced and s == 1 and steps == 3:
+                mode = ["hard", "mixed"][eng.choice(f"mode{s}", 2)]
+            elif reduced and s == 2:
+                mode = ["hard", "patch", "reset_index"][eng.choice(f"mode{s}", 3)]
+            else:
+                mode = ["hard", "mixed", "patch", "reset_index"][eng.choice(f"mode{s}", 4)]
             seq.append((nm, mode))
         parent = []
         for nm, mode in seq:
@@ -352,21 +367,32 @@ def h_compose(eng, first="plain", steps=3):
         new = {k for k in git_after if not k.startswith("objects")} - git_before - {"index", "ORIG_HEAD", "HEAD"}
         new = {k for k in new if not k.startswith("refs/") and not k.startswith("logs/")}
         eng.prove(not new, f"{tag} no foreign file appeared in .git: {sorted(new)}")
+        strays = [k for k in git_after if os.path.basename(k) == ".git"]
+        eng.prove(not strays, f"{tag} no submodule placeholder was written inside the control directory: {strays}")
     finally:
         _sh2.rmtree(base, ignore_errors=True)
 
 
 def checks(tier):
     q = ("quick", "thorough")
-    pool_names = ["absolute", "d_dir", "d_link_abs", "d_link_dotgit", "d_link_parent", "d_link_sibling", "dotdot", "dotgit_ntfs",
-                  "dotgit_upper", "plain", "x_file_11_bytes", "x_file_19_bytes", "x_link_dotgit_file", "x_link_sibling_file"]
-    return _b17(tier) + [
-        KCheck("C17c.composition", h_compose, parts=[{"first": f, "steps": 3} for f in pool_names],
-               encoded=["dulwich.porcelain.reset/apply_patch", "dulwich.index.build_index_from_tree/update_working_tree/verify_leading_dirs/"
-                        "validate_path/build_file_from_blob", "dulwich.patch.apply_patches/_ensure_within_repo/_validate_patch_target"],
-               bounds="every sequence of 3 steps: a tree from an adversarial pool of 14 (symlinks to ../outside, to an absolute path, to a "
-                      "sibling directory whose name extends the work tree's, to a file in it, to .git and to .git/config; directory of the same name; .GIT, "
+    pool_names = ["absolute", "d_dir", "d_gitlink", "d_link_abs", "d_link_dotgit", "d_link_parent", "d_link_refs", "d_link_sibling", "dotdot",
+                  "dotgit_ntfs", "dotgit_upper", "plain", "x_file_11_bytes", "x_file_19_bytes", "x_link_dotgit_file", "x_link_sibling_file"]
+    enc_c = ["dulwich.porcelain.reset/apply_patch", "dulwich.index.build_index_from_tree/update_working_tree/verify_leading_dirs/"
+                        "validate_path/build_file_from_blob", "dulwich.patch.apply_patches/_ensure_within_repo/_validate_patch_target"]
+    bound_c = ("%s: each step a tree from an adversarial pool of 16 (symlinks to ../outside, to an absolute path, to a "
+                      "sibling directory whose name extends the work tree's, to a file in it, to .git, .git/refs/heads and .git/config; a gitlink replacing such a link; directory of the same name; .GIT, "
                       "'.git .', git~1, '..' and absolute entry names) applied by reset --hard, reset --mixed, WorkTree.reset_index (checkout on top of what is there) or as a patch rewriting "
-                      "the tree's files; real directories with canaries outside the work tree",
-               outside="sequences longer than 3; clone/stash entry points; real NTFS/HFS+ file systems", time_budget=2400, tiers=q),
+                      "the tree's files; real directories with canaries outside the work tree")
+    return _b17(tier) + [
+        KCheck("C17c.composition", h_compose,
+               parts=[{"first": f, "steps": 2} for f in pool_names] +
+                     [{"first": f, "steps": 3, "reduced": True} for f in pool_names if f.startswith(("d_link", "x_link", "plain", "d_dir"))],
+               encoded=enc_c, bounds=bound_c % "every sequence of 2 steps, and every sequence of 3 steps that starts with a link-creating, "
+               "plain or directory tree, continues with any tree by reset --hard or --mixed and ends with any tree by reset --hard, "
+               "reset_index or patch",
+               outside="the remaining 3-step sequences (thorough); longer sequences; clone/stash entry points; real NTFS/HFS+ file systems",
+               time_budget=2400, tiers=("quick",)),
+        KCheck("C17c.composition_full", h_compose, parts=[{"first": f, "steps": 3} for f in pool_names],
+               encoded=enc_c, bounds=bound_c % "every sequence of 3 steps with every mode at steps 2 and 3",
+               outside="sequences longer than 3; clone/stash entry points; real NTFS/HFS+ file systems", time_budget=6000, tiers=("thorough",)),
     ]
